@@ -66,6 +66,7 @@ def prove_lemmas(world, pid, timeout_ms):
     for lm in todo:
         if lm.induction is None:
             fv = spec_evaluator(world, f"lemma:{lm.name}")
+            fv.proving_nonneg = lm.name[:-7] if lm.name.endswith("_nonneg") else None
             env = lemma_env(world, lm, fv)
             ctx = Ctx(env, fv.heap, spec=True, fuel=2)
             for r in lm.requires:
@@ -77,6 +78,7 @@ def prove_lemmas(world, pid, timeout_ms):
             iv = lm.induction
             # base
             fv = spec_evaluator(world, f"lemma:{lm.name}/base")
+            fv.proving_nonneg = lm.name[:-7] if lm.name.endswith("_nonneg") else None
             env = lemma_env(world, lm, fv)
             fv.assume(env[iv].t == 0)
             ctx = Ctx(env, fv.heap, spec=True, fuel=2)
@@ -87,6 +89,7 @@ def prove_lemmas(world, pid, timeout_ms):
             obs.extend(fv.obligations)
             # step
             fv = spec_evaluator(world, f"lemma:{lm.name}/step")
+            fv.proving_nonneg = lm.name[:-7] if lm.name.endswith("_nonneg") else None
             env = lemma_env(world, lm, fv)
             fv.assume(env[iv].t > 0)
             ctx = Ctx(env, fv.heap, spec=True, fuel=2)
